@@ -96,16 +96,33 @@ struct Sched {
                 give(-1);
         }
         // ---- library data monitor
+        // The RW segment of a library built with AddressSanitizer has poisoned red zones between its globals: it is read
+        // here with plain loops in functions the sanitizer leaves alone (memcpy / memcmp would be intercepted).
+        __attribute__((no_sanitize_address, noinline)) static void raw_copy(uint8_t *d, const uint8_t *s, size_t n)
+        {
+                for (size_t i = 0; i < n; i++)
+                        ((volatile uint8_t *) d)[i] = s[i];
+        }
+        __attribute__((no_sanitize_address, noinline)) static bool raw_same(const uint8_t *a, const uint8_t *b, size_t n)
+        {
+                uint8_t acc = 0;
+                for (size_t i = 0; i < n; i++)
+                        acc |= ((const volatile uint8_t *) a)[i] ^ b[i];
+                return acc == 0;
+        }
         void snap()
         {
-                snapshot.assign((uint8_t *) g_lib.rw_lo, (uint8_t *) g_lib.rw_hi);
+                snapshot.resize(g_lib.rw_hi - g_lib.rw_lo);
+                raw_copy(snapshot.data(), (const uint8_t *) g_lib.rw_lo, snapshot.size());
         }
         void diff_check(const char *when)
         {
-                const uint8_t *cur = (const uint8_t *) g_lib.rw_lo;
                 size_t n = g_lib.rw_hi - g_lib.rw_lo;
-                if (!memcmp(cur, snapshot.data(), n))
+                if (raw_same((const uint8_t *) g_lib.rw_lo, snapshot.data(), n))
                         return;
+                std::vector<uint8_t> curv(n);
+                raw_copy(curv.data(), (const uint8_t *) g_lib.rw_lo, n);
+                const uint8_t *cur = curv.data();
                 // something changed: allowed only inside the 8 bytes of a dispatch slot
                 std::vector<uint8_t> mask(n, 0);
                 for (size_t i = 0; i < cpu_nslots(); i++) {
